@@ -710,13 +710,11 @@ func c10TagRules(c *kit.Ctx, m *c10Model) {
 		c.Rule("R7", "a memo of derived keys is keyed injectively on types", 0)
 	}
 	// roles
+	// calls: directly, or through plain helpers (decodeGroup → SetValue)
 	calls := func(f, g *kit.Func) bool {
-		for _, call := range f.AllCalls(false) {
-			if f.CalleeFunc(call) == g {
-				return true
-			}
-		}
-		return false
+		fns := map[*kit.Func]bool{}
+		c10CallsOf(f, f.Body, map[string]bool{}, fns, 0)
+		return fns[g]
 	}
 	var dec, enc, dif *disp
 	for _, d := range disps {
